@@ -282,6 +282,8 @@ impl WriteBuffer {
     ) -> Self {
         // Use half CPU count for both shards and workers
         let num_shards = (num_cpus::get() / 2).max(1);
+        #[cfg(feoxdb_verif)]
+        let num_shards = crate::verif::cpus("write_buffer.shards", num_shards);
 
         let sharded_buffers = Arc::new(
             (0..num_shards)
@@ -298,7 +300,10 @@ impl WriteBuffer {
             periodic_flush_handle: Mutex::new(None),
             shutdown: Arc::new(AtomicBool::new(false)),
             stats,
+            #[cfg(not(feoxdb_verif))]
             shard_hasher: RandomState::new(),
+            #[cfg(feoxdb_verif)]
+            shard_hasher: crate::verif::random_state("write_buffer.shard_hasher"),
             retirement_queue: Arc::new(RetirementQueue::new()),
             format_version,
             fault_scope: crate::test_hooks::new_fault_scope(),
@@ -1057,6 +1062,8 @@ fn process_write_batch(
                             let mut rng = rand::rng();
                             (delay_us * rng.random_range(-10..=10)) / 100
                         };
+                        #[cfg(feoxdb_verif)]
+                        let jitter = crate::verif::jitter("write_buffer.retry_jitter", jitter);
                         let actual_delay = (delay_us + jitter).max(1);
                         thread::sleep(Duration::from_micros(actual_delay as u64));
                         delay_us *= 2;
